@@ -55,6 +55,8 @@ def reset():
     global A
     A = Atoms()
     _dcache.clear()
+    UNDEF_ON[0] = False
+    del UNDEF_REASONS[:]
     del DEFINED[:]
     del TINY_SEEN[:]
     PATH.start([])
@@ -267,6 +269,33 @@ def _tofrac(o):
     return None
 
 
+UNDEF_ON = [False]
+
+
+def undef(reason="division by an exact zero"):
+    """the undefined value (inf/nan of the float code): absorbing under every operation"""
+    UNDEF_ON[0] = True
+    UNDEF_REASONS.append(reason)
+    i = A.new("UNDEFINED", 'undef', None, key=('undef',))
+    return RF({((i, 1),): F1})
+
+
+UNDEF_REASONS = []
+
+
+def has_undef(x):
+    if not UNDEF_ON[0] or not isinstance(x, RF):
+        return False
+    k = A.by_key.get(('undef',))
+    if k is None:
+        return False
+    for m in x.p:
+        for a, e in m:
+            if a == k:
+                return True
+    return False
+
+
 class OutsideFragment(Exception):
     """the real code used an operation the symbolic semantics does not cover (checker exit 3, never a violation)"""
 
@@ -307,17 +336,29 @@ class RF:
 
     def __add__(self, o):
         o = self._coerce(o)
-        return o if o is NotImplemented else RF(p_add(self.p, o.p))
+        if o is NotImplemented:
+            return o
+        if UNDEF_ON[0] and (has_undef(self) or has_undef(o)):
+            return undef("propagated")
+        return RF(p_add(self.p, o.p))
 
     __radd__ = __add__
 
     def __sub__(self, o):
         o = self._coerce(o)
-        return o if o is NotImplemented else RF(p_add(self.p, o.p, -1))
+        if o is NotImplemented:
+            return o
+        if UNDEF_ON[0] and (has_undef(self) or has_undef(o)):
+            return undef("propagated")
+        return RF(p_add(self.p, o.p, -1))
 
     def __rsub__(self, o):
         o = self._coerce(o)
-        return o if o is NotImplemented else RF(p_add(o.p, self.p, -1))
+        if o is NotImplemented:
+            return o
+        if UNDEF_ON[0] and (has_undef(self) or has_undef(o)):
+            return undef("propagated")
+        return RF(p_add(o.p, self.p, -1))
 
     def __neg__(self):
         return RF(p_scale(self.p, -1))
@@ -330,6 +371,8 @@ class RF:
         if o is NotImplemented:
             return o
         a, b = self.p, o.p
+        if UNDEF_ON[0] and (has_undef(self) or has_undef(o)):
+            return undef("propagated")           # absorbing: 0 * inf is nan in the float code
         if not a or not b:
             return RF({})
         if len(b) == 1 and ONE in b:
@@ -344,7 +387,9 @@ class RF:
 
     def inv(self):
         if not self.p:
-            raise ZeroDivisionError("symbolic 1/0")
+            return undef("1/0")
+        if UNDEF_ON[0] and has_undef(self):
+            return undef("propagated")
         if self.is_const():
             return RF({ONE: 1 / self.cval()})
         if has_defs(self.p):
@@ -369,10 +414,12 @@ class RF:
         o = self._coerce(o)
         if o is NotImplemented:
             return o
+        if UNDEF_ON[0] and (has_undef(self) or has_undef(o)):
+            return undef("propagated")
         if o.is_const():
             c = o.cval()
             if not c:
-                raise ZeroDivisionError("symbolic x/0")
+                return undef("x/0")
             return RF({m: v / c for m, v in self.p.items()})
         return self * o.inv()
 
@@ -582,6 +629,8 @@ def rf_key(x):
 
 def root(x, k):
     """principal k-th root of x (x >= 0 is recorded as a definedness condition for even k)"""
+    if UNDEF_ON[0] and has_undef(x):
+        return undef("propagated")
     if x.is_const():
         c = x.cval()
         if c == 0:
@@ -743,6 +792,8 @@ class Angle:
 
 
 def transc(kind, u):
+    if UNDEF_ON[0] and has_undef(u):
+        return undef("propagated")
     if has_defs(u.p):
         u = RF(expand_defs(u.p))
     if kind == 'exp' and not u.p:
@@ -917,6 +968,8 @@ def atom_deps(a):
         d = atom_deps(info)
     elif k == 'inv':
         d = poly_deps(info)
+    elif k == 'undef':
+        d = frozenset()
     elif k == 'ind':
         d = poly_deps(info.val.p)
     elif k in ('fun', 'dfun'):
@@ -1318,6 +1371,8 @@ def _eval_atom(a, env, cache, ctx):
     elif k == 'ind':
         v = evalf(info.val, env, cache, ctx)
         r = 1 if ((v > 0) if info.op == '>' else (v >= 0 if info.op == '>=' else v == 0)) else 0
+    elif k == 'undef':
+        raise Undefined("undefined value")
     elif k in ('fun', 'dfun'):
         r = FUN_EVAL(a, env, cache, ctx)
     else:
